@@ -1,4 +1,5 @@
 import XfemmVerif.Model.Heat
+import XfemmVerif.Model.HSolver
 import XfemmVerif.Properties.C03
 import Mathlib.Algebra.Order.Field.Basic
 import Mathlib.Tactic.Ring
@@ -13,6 +14,10 @@ its elimination / accumulation logic.  Proved here, over any ordered field: the 
 `GetK` is clamped outside the table, exact at its knots, continuous across knots and bounded by its
 neighbouring knot values; the radiation boundary linearisation is exact at a fixed point of the
 iteration; the lumped transient term vanishes for a stationary field.
+The whole assembly of one pass (`Model/HSolver.lean`: conductivity averaging, transient term, heat generation, flux /
+convection / radiation edges planar and axisymmetric, elimination, floating conductors, point sources, ties, conductor rows)
+is compared bit for bit with the system the real `HSolver::AnalyzeProblem` hands to `PCGSolve`; its boundary-term functions are
+proved here to balance at the ambient temperature, to carry the exact edge integrals, and to reproduce the Stefan-Boltzmann law.
 Decided per run by the independent nonlinear SI oracle on the real `.anh` (labelled partial):
 the global statement for all boundary types incl. Picard convergence.
 -/
@@ -90,5 +95,55 @@ example : getK [((250 : ℚ), 1), (300, 2), (400, 5)] 0 275 = 3 / 2 := by
   unfold getK getKSeg; norm_num
 example : getK [((250 : ℚ), 1), (300, 2), (400, 5)] 0 500 = 5 := by
   unfold getK; norm_num
+
+
+/-! ### boundary terms of the assembly model (`Model/HSolver.lean`, compared bit for bit with the real `HSolver::AnalyzeProblem`) -/
+section BoundaryTerms
+open XfemmVerif.HSolver
+variable {β : Type} [Field β] [CharZero β] [DecidableEq β]
+
+/-- **a surface at the ambient temperature exchanges no heat** (planar convection edge): with `c0 = h`, `c1 = −h·T∞` the row of
+    the edge matrix `[2K K; K 2K]` applied to the uniform temperature `T∞` equals the edge's right-hand side -/
+theorem planar_convection_equilibrium (depth h Tinf l : β) :
+    (planarEdgeK depth h l * 2 + planarEdgeK depth h l) * Tinf = planarEdgeK2 depth (-h * Tinf) l := by
+  simp only [planarEdgeK, planarEdgeK2]; ring
+
+/-- the same for an axisymmetric edge between radii `xj`, `xk`: both rows -/
+theorem axi_convection_equilibrium (pi h Tinf l xj xk : β) :
+    (axiWjj (axiEdgeK pi h l) xj xk + axiWjk (axiEdgeK pi h l) xj xk) * Tinf = axiBj (axiEdgeK2 pi (-h * Tinf) l) xj xk ∧
+    (axiWkk (axiEdgeK pi h l) xj xk + axiWjk (axiEdgeK pi h l) xj xk) * Tinf = axiBk (axiEdgeK2 pi (-h * Tinf) l) xj xk := by
+  simp only [axiWjj, axiWkk, axiWjk, axiBj, axiBk, axiEdgeK, axiEdgeK2]
+  constructor <;> ring
+
+/-- row sums of the axisymmetric edge matrix are `−2π·c0` times the exact integrals `∫ N_j r ds = l (2 x_j + x_k)/6` of the
+    shape functions against the radius — the weights a revolved edge must carry -/
+theorem axi_edge_row_sums (pi c0 l xj xk : β) :
+    axiWjj (axiEdgeK pi c0 l) xj xk + axiWjk (axiEdgeK pi c0 l) xj xk = -2 * pi * c0 * (l * (2 * xj + xk) / 6) ∧
+    axiWkk (axiEdgeK pi c0 l) xj xk + axiWjk (axiEdgeK pi c0 l) xj xk = -2 * pi * c0 * (l * (xj + 2 * xk) / 6) := by
+  simp only [axiWjj, axiWkk, axiWjk, axiEdgeK]
+  constructor <;> ring
+
+/-- the planar edge matrix has the row sum `−depth·c0·l/2` (exact integral of a shape function over the edge) -/
+theorem planar_edge_row_sum (depth c0 l : β) : planarEdgeK depth c0 l * 2 + planarEdgeK depth c0 l = -depth * c0 * (l / 2) := by
+  simp only [planarEdgeK]; ring
+
+/-- **radiation**: the coefficients the model (and, bit for bit, the code) uses for a radiating edge, evaluated at the
+    linearisation point itself, give back the Stefan–Boltzmann law `βσ(T⁴ − T∞⁴)` -/
+theorem radiation_coefficients_exact (k : HConsts β) (lp : HBdryProp β) (T : β) (hf : lp.fmt = 3)
+    (hpow : ∀ x n, k.pow x n = x ^ n) :
+    (bcCoeffs k lp T).1 * T + (bcCoeffs k lp T).2 = lp.beta * k.ksb * (T ^ 4 - lp.Tinf ^ 4) := by
+  simp only [bcCoeffs, hf, hpow]
+  norm_num
+  ring
+
+/-- heat-flux and convection edges get the documented coefficients -/
+theorem flux_coefficients (k : HConsts β) (lp : HBdryProp β) (T : β) (hf : lp.fmt = 1) : bcCoeffs k lp T = (0, lp.qs) := by
+  simp [bcCoeffs, hf]
+
+theorem convection_coefficients (k : HConsts β) (lp : HBdryProp β) (T : β) (hf : lp.fmt = 2) :
+    bcCoeffs k lp T = (lp.h, -lp.h * lp.Tinf) := by
+  simp [bcCoeffs, hf]
+
+end BoundaryTerms
 
 end XfemmVerif.C04
